@@ -775,6 +775,28 @@ func runSScenario(t *testing.T, ops *opsWriter, rng *rand.Rand, steps int, hosti
 			r.call(sid, hcmd{op: "recv"})
 			r.refreshPending(streams)
 		}
+		if rng.Intn(6) == 0 && !r.closing {
+			// A unary handler that is still computing when the deadline from its grpc-timeout header fires and then returns its
+			// response as if nothing had happened (C07: the caller must get DeadlineExceeded, never an OK close without the
+			// response; C18: the header became the handler's deadline).
+			sid := next
+			next++
+			g := &gStream{sid: sid, shape: "U", accepted: true, fc: true, cur: -1}
+			streams = append(streams, g)
+			r.frameNew(sid, "/v.S/U", 1, 65536, metadata.Pairs("grpc-timeout", []string{"500m", "1S", "300000u"}[rng.Intn(3)]), true)
+			n1 := feasible([]int{0, 5, 100}[rng.Intn(3)])
+			r.frameData(sid, true, uint32(n1), n1, 0, 0, n1)
+			g.reqIdx = 1
+			g.half = true
+			r.frameSimple(sid, "half", 0)
+			g.hEntered = true
+			r.step(fmt.Sprintf("s.tick ns=%d", int64(2*time.Second)), func() { time.Sleep(2 * time.Second) })
+			if rng.Intn(4) != 0 {
+				g.hReturned = true
+				r.call(sid, hcmd{op: "reply", n: feasible([]int{5, 100, 20000}[rng.Intn(3)]), idx: 0})
+			}
+			r.refreshPending(streams)
+		}
 		for step := 0; step < steps && !r.served; step++ {
 			k := rng.Intn(100)
 			switch {
